@@ -7,7 +7,7 @@ by rply's `LexerStream.next` loop.  `Props.C04.lex_regex_eq` proves that this is
 hand-written `PluralParse.lex`.
 
 * `parseRegex` reads the subset of Python's `re` syntax the rules use: a sequence of atoms — a literal character or
-  a class `[...]` of literal members, `a-b` ranges and the escape `\t` — each optionally followed by `+` or `?`.
+  a class `[...]` of literal members, `a-b` ranges and the escapes `\t` and `\<punctuation>` — each optionally followed by `+` or `?`.
   Anything else (other metacharacters, other escapes, negated classes, lazy/stacked quantifiers) is *not read*:
   `none`, and the lexer's outcome is `crash`.  No regex flag is set (`Generated.PluralGrammar.extraFlags = []`).
 * `matchRe` is `re.match` at the current position: leftmost alternative first, greedy quantifiers with
@@ -36,6 +36,12 @@ abbrev Regex := List (Atom × Quant)
 def Atom.matches (a : Atom) (c : Char) : Bool :=
   a.members.contains c || a.ranges.any fun r => decide (r.1 ≤ c) && decide (c ≤ r.2)
 
+/-- `\c` for an ASCII punctuation character `c` is the literal `c` in Python's `re` (letters and digits after a
+    backslash are classes, anchors or back-references: not read here, except `\t`) -/
+def isPunctEscapable (c : Char) : Bool :=
+  ['!', '"', '#', '$', '%', '&', '\'', '(', ')', '*', '+', ',', '-', '.', '/', ':', ';', '<', '=', '>', '?', '@', '[', '\\', ']',
+   '^', '_', '`', '{', '|', '}', '~', ' '].contains c
+
 /-- characters that mean something outside a class in Python's `re` -/
 def isMeta (c : Char) : Bool := ['.', '^', '$', '*', '+', '?', '{', '}', '(', ')', '|', '\\', '[', ']'].contains c
 
@@ -45,7 +51,12 @@ def parseClass : Nat → List Char → Atom → Option (Atom × List Char)
   | _ + 1, [], _ => none
   | _ + 1, ']' :: rest, a => if a.members.isEmpty && a.ranges.isEmpty then none else some (a, rest)
   | f + 1, '\\' :: 't' :: rest, a => parseClass f rest { a with members := a.members ++ ['\t'] }
-  | _ + 1, '\\' :: _, _ => none
+  | f + 1, '\\' :: c :: rest, a =>
+    -- an escaped punctuation character is itself; as a range bound it is not read
+    if isPunctEscapable c && !(rest.head? == some '-' && rest.tail.head? != some ']') then
+      parseClass f rest { a with members := a.members ++ [c] }
+    else none
+  | _ + 1, ['\\'], _ => none
   | f + 1, lo :: '-' :: hi :: rest, a =>
     if hi = ']' then parseClass f ('-' :: hi :: rest) { a with members := a.members ++ [lo] }
     else if hi = '\\' || hi = '[' then none
@@ -54,6 +65,13 @@ def parseClass : Nat → List Char → Atom → Option (Atom × List Char)
     if c = '^' && a.members.isEmpty && a.ranges.isEmpty then none
     else if c = '[' then none
     else parseClass f rest { a with members := a.members ++ [c] }
+
+def insertChar (c : Char) : List Char → List Char
+  | [] => [c]
+  | d :: ds => if c.toNat < d.toNat then c :: d :: ds else if c = d then d :: ds else d :: insertChar c ds
+
+/-- the order and multiplicity of the members of a class do not matter: sort them -/
+def Atom.norm (a : Atom) : Atom := { a with members := a.members.foldr insertChar [] }
 
 def parseQuant (a : Atom) : List Char → (Atom × Quant) × List Char
   | '+' :: rest => ((a, .plus), rest)
@@ -67,8 +85,13 @@ def parseRegexGo : Nat → List Char → Option Regex
     match parseClass (rest.length + 1) rest ⟨[], []⟩ with
     | none => none
     | some (a, rest') =>
-      let (q, rest'') := parseQuant a rest'
+      let (q, rest'') := parseQuant a.norm rest'
       (parseRegexGo f rest'').map (q :: ·)
+  | f + 1, '\\' :: c :: rest =>
+    if c = 't' || isPunctEscapable c then
+      let (q, rest') := parseQuant ⟨[if c = 't' then '\t' else c], []⟩ rest
+      (parseRegexGo f rest').map (q :: ·)
+    else none
   | f + 1, c :: rest =>
     if isMeta c then none
     else
